@@ -111,6 +111,23 @@ def run(ck):
         pr, fo = gen(rng, t, nmax)
         todo.append((pr, fo, rng.choice([1.5, 2.0, 2.5, 3.0]), ['rmse', 'mae', 'std'][(t // 4) % 3],
                      bool((t // 12) % 2), K, False))
+    # constant (and piecewise constant) weights: given weights are not "no weights" - the weighted std estimator
+    # (reliability weights, 1 - sum w^2) differs from the unweighted one - also when the retained weights only BECOME
+    # uniform after the differently weighted sources were clipped
+    for t in range(ck.n(16, 160)):
+        pr, fo = gen(rng, 4 * t + t % 4, nmax)
+        if pr['n'] < 6:
+            continue
+        keys = [['wxy'], ['wuv'], ['wxy', 'wuv']][t % 3]
+        pr['wxy'], pr['wuv'] = None, None
+        nlow = [0, 0, 1, 2][t % 4]
+        for key in keys:
+            pr[key] = [float(2 ** (t % 3))] * pr['n']
+            for k in range(nlow):
+                pr[key][pr['n'] - 1 - k] = 0.125           # the outliers G.problem puts last, if any
+        pr['wmode'] = {('wxy',): 'xy', ('wuv',): 'uv'}.get(tuple(keys), 'both') + '/constant'
+        todo.append((pr, 'constant_weights', rng.choice([1.5, 2.0, 2.5]), ['std', 'std', 'rmse', 'mae'][t % 4],
+                     bool(t % 2), K, False))
     for pr, fo, sigma, stat, accum, KK, exact in todo:
         try:
             trace = run_trace(lf, pr, sigma, stat, accum, KK)
